@@ -247,6 +247,20 @@ pub fn mutant_for(seed: u64, idx: u64) -> Option<Mutant> {
         };
         return Some(Mutant { bytes: b, file: short, what: what.to_string() });
     }
+    if level == 9 {
+        // a package written by the engine's own exporter from a model full of hostile strings
+        // (typed text and formula results), then imported like any other file
+        let mut m = Model::new_empty("m", "en", "UTC", "en").ok()?;
+        for r in 1..=8 {
+            let t = *crate::util::pick(&mut rng, TEXT_VALUES);
+            let _ = m.set_user_input(0, r, 1, format!("'{t}"));
+            let t2 = *crate::util::pick(&mut rng, TEXT_VALUES);
+            let _ = m.set_user_input(0, r, 2, format!("=\"{}\"&\"\"", t2.replace('"', "\"\"")));
+        }
+        m.evaluate();
+        let bytes = guarded(|| ironcalc::export::save_xlsx_to_writer(&m, std::io::Cursor::new(Vec::new())).map(|c| c.into_inner())).ok()?.ok()?;
+        return Some(Mutant { bytes, file: "exported".into(), what: "export:hostile-strings".into() });
+    }
     let mut members = unzip(&original)?;
     if level == 1 || level == 2 {
         // zip level
@@ -292,7 +306,7 @@ pub fn mutant_for(seed: u64, idx: u64) -> Option<Mutant> {
         .iter()
         .flat_map(|i| {
             let n = &members[*i].0;
-            let w = if n.contains("worksheets/sheet") || n.ends_with("workbook.xml") || n.ends_with("styles.xml") || n.ends_with("workbook.xml.rels") { 5 } else { 1 };
+            let w = if n.contains("worksheets/sheet") || n.ends_with("workbook.xml") || n.ends_with("styles.xml") || n.ends_with("workbook.xml.rels") || n.ends_with("sharedStrings.xml") { 5 } else { 1 };
             std::iter::repeat(*i).take(w)
         })
         .collect();
@@ -404,7 +418,35 @@ fn run(ctx: &Ctx) -> Stats {
     st
 }
 
+/// A mutation spelled out by name (committed findings use this form, so that they do not
+/// depend on the mutant generator's random stream): drop the first element `drop_element`
+/// from the member ending in `part` of the corpus file `base` (relative to the repository).
+fn named_mutation(case: &Value) -> Option<Vec<u8>> {
+    let base = case.get("base")?.as_str()?;
+    let part = case.get("part")?.as_str()?;
+    let element = case.get("drop_element")?.as_str()?;
+    let original = std::fs::read(format!("{}/{}", repo_dir(), base)).ok()?;
+    let mut members = unzip(&original)?;
+    let i = members.iter().position(|(n, _)| n.ends_with(part))?;
+    let xml = String::from_utf8_lossy(&members[i].1).to_string();
+    let open = xml.find(&format!("<{element}"))?;
+    let close_tag = format!("</{element}>");
+    let end = match xml[open..].find(&close_tag) {
+        Some(p) => open + p + close_tag.len(),
+        None => open + xml[open..].find("/>")? + 2,
+    };
+    members[i].1 = format!("{}{}", &xml[..open], &xml[end..]).into_bytes();
+    Some(rezip(&members, zip::CompressionMethod::Deflated))
+}
+
 fn replay(ctx: &Ctx, case: &Value) -> Vec<Violation> {
+    if case.get("base").is_some() {
+        let Some(bytes) = named_mutation(case) else { return vec![] };
+        return match import(&bytes) {
+            Err((stage, p)) => vec![Violation { check: "panic".into(), sig: format!("panic|{}", crate::util::panic_site(&p)), detail: format!("{stage} panicked: {p}"), case: case.clone() }],
+            Ok(_) => vec![],
+        };
+    }
     let seed = case.get("seed").and_then(|t| t.as_u64()).unwrap_or(0);
     let i = case.get("index").and_then(|t| t.as_u64()).unwrap_or(0);
     let (lines, culprits) = crash::run_range("C25", &ctx.tier, seed, i, i + 1, Duration::from_secs(90), Duration::from_secs(90));
